@@ -20,8 +20,10 @@ func init() {
 		Units: []string{"fasthttp.normalizePath", "fasthttp.(*URI).SetPathBytes", "fasthttp.(*URI).Path", "fasthttp.decodeArgAppendNoPlus", "fasthttp.unhex"},
 		Runs: []Run{
 			{Pkg: "fasthttp", Func: "vhC26NormalizePath", Quick: map[string]int{"maxPath": 5}, Thorough: map[string]int{"maxPath": 7}},
+			{Pkg: "fasthttp", Func: "vhC26Segments", Quick: map[string]int{"segments": 5}, Thorough: map[string]int{"segments": 6}, PathCap: 3000000},
 		},
 		Assume: []string{
+			"segment-level paths (vhC26Segments): up to `segments` segments from {a, bc, ., .., empty, %2e%2e, one arbitrary byte}, with or without a trailing slash, against the same independent remove_dot_segments reference",
 			"reference = RFC 3986 §5.2.4 remove_dot_segments over the percent-decoded, slash-collapsed path (harness/fasthttp/c26.go)",
 			"paths are arbitrary byte strings of length ≤ maxPath; filepath.Separator is '/' (Windows back-slash handling outside)",
 		},
@@ -45,8 +47,10 @@ func init() {
 			{Pkg: "fasthttp", Func: "vhC29RequestOps", Quick: map[string]int{"ops": 4}, Thorough: map[string]int{"ops": 5}, PathCap: 400000},
 			{Pkg: "fasthttp", Func: "vhC29SpecialResponse", Quick: map[string]int{"ops": 2}, Thorough: map[string]int{"ops": 3}, PathCap: 1500000},
 			{Pkg: "fasthttp", Func: "vhC29SpecialRequest", Quick: map[string]int{"ops": 2}, Thorough: map[string]int{"ops": 3}, PathCap: 1500000},
+			{Pkg: "fasthttp", Func: "vhC29ParsedRequest", Quick: map[string]int{"lines": 5}, Thorough: map[string]int{"lines": 6}, PathCap: 3000000},
 		},
 		Assume: []string{
+			"wire-parsed request headers (vhC29ParsedRequest): 3..`lines` field lines drawn from Cookie / X-A / X-B lines in any order, read with the real RequestHeader.Read, then one call touching another name (Cookie, PeekKeys, Set/SetCookie, Del or Add of X-B): the X-A values and their order stay what the wire carried, also after write and read-back",
 			"operation alphabet Add/Set/Del over the ordinary names {X-A, x-a, X-B, x-C} (mixed case, normalisation on) with one-byte symbolic values ≠ CR/LF, observed through PeekAll/Peek/Len",
 			"special names: 2 (quick) / 3 (thorough) Add/Set/Del operations over {Content-Type (two spellings), Server / Host, User-Agent, Connection (value close or arbitrary), Content-Encoding} mixed with ordinary names, one visible symbolic byte per value; the model makes special names single-valued (Add replaces); after the operations the header, a CopyTo copy and the header read back from its own serialisation are compared with the model through Peek/PeekAll",
 			"Cookie/Set-Cookie/Trailer/Content-Length/Date/Transfer-Encoding as operands, disabled normalisation and longer values are outside this check",
@@ -268,9 +272,11 @@ func init() {
 		Runs: []Run{
 			{Pkg: "fasthttp", Func: "vhC34ResponseStream", Quick: map[string]int{"dataLen": 4}, Thorough: map[string]int{"dataLen": 8}},
 			{Pkg: "fasthttp", Func: "vhC34CompressedStream", Quick: map[string]int{"dataLen": 3}, Thorough: map[string]int{"dataLen": 5}, NoNative: true},
+			{Pkg: "fasthttp", Func: "vhC34RequestStream", Quick: map[string]int{"dataLen": 4}, Thorough: map[string]int{"dataLen": 8}},
 			{Pkg: "fasthttp", Func: "vhC02StreamAcrossConns"},
 		},
-		Assume: []string{serveAssume + " (this harness additionally injects write failures)",
+		Assume: []string{
+			"request side (vhC34RequestStream): a request body stream of exact or unknown size written by the real Request.Write and read back by the real Request.Read; streams may hand over their last bytes together with io.EOF (both sides)",serveAssume + " (this harness additionally injects write failures)",
 			"response body streams only: an io.ReadCloser with ≤ dataLen arbitrary bytes, read one byte at a time or in bulk, declared size exact or unknown (-1), optional panic in the first or second Read, optional failure of every connection write; SetBodyStreamWriter, Reset/Release paths without a write, and declared sizes that differ from the produced length (C03) are outside this check",
 			"compressed streams (vhC34CompressedStream): newCompressedBodyStream with an identity codec (the real codecs are C22's subject) over ≤ dataLen arbitrary bytes; the consumer discards at once, after one byte, or reads to the end, and closes once or twice, with a schedule choice point after every copied piece; not re-run natively (schedule-dependent)",
 			"request body streams (vhC02StreamAcrossConns): a chunked upload that breaks off inside a chunk, then a well-formed chunked upload on another connection of the same Server (pooled stream objects): the second handler reads exactly its own body",
